@@ -77,7 +77,9 @@ Closers == IF Stateless THEN Calls ELSE SCl \cup {"del", "timer"}
 CSess(c) == IF Stateless THEN c ELSE "S"
 
 HStates == {"none", "chan", "running", "returned", "done", "refusing", "refused", "lost"}
-NestStates == {"none", "wire", "run", "ans", "done", "fail", "stuck"}
+\* "orun"/"oans": the client's handler is still running / answering although the server has given the call up (the
+\* notice of the abandonment travels on the call's own stream, which the caller's cancellation has torn down)
+NestStates == {"none", "wire", "run", "ans", "done", "fail", "stuck", "orun", "oans"}
 NestPending == {"wire", "run", "ans", "stuck"}
 HBusy == {"running", "returned", "refusing"}
 
@@ -123,7 +125,7 @@ Init ==
 \* no call of ours unanswered.  (A message still sitting in streamableServerConn.incoming does not count.)
 SrvIdle(s) == \A k \in Calls : SOf(k) = s => (h[k] \notin HBusy /\ nest[k] \notin NestPending)
 \* the same for the client connection
-CliIdle == \A k \in Calls : cc[k] # "pending" /\ nest[k] \notin {"run", "ans"}
+CliIdle == \A k \in Calls : cc[k] # "pending" /\ nest[k] \notin {"run", "ans", "orun", "oans"}
 CliShut == cst # "open" \/ cfail # "no"
 
 Fail(kind) == IF cfail = "no" THEN kind ELSE cfail
@@ -134,7 +136,7 @@ OpenPosts == {k \in Calls : px[k] = "open"}
 
 \* ClientSession.CallTool: jsonrpc2 Call (refused while shutting down), then streamableClientConn.Write issues the POST
 Call(k, held) ==
-  /\ cc[k] = "none" /\ ~gone /\ (held => Helds)
+  /\ cc[k] = "none" /\ ~gone /\ (held => (Helds /\ net = "up"))
   /\ IF CliShut
        THEN cc' = [cc EXCEPT ![k] = "err"] /\ UNCHANGED px
        ELSE cc' = [cc EXCEPT ![k] = "pending"] /\ px' = [px EXCEPT ![k] = IF held THEN "held" ELSE "flight"]
@@ -161,9 +163,12 @@ Sreq(k) ==
 
 \* the client's handler of the nested call returns
 Ans(k) ==
-  /\ nest[k] = "run" /\ ~gone
-  /\ nest' = [nest EXCEPT ![k] = "ans"]
+  /\ nest[k] \in {"run", "orun"} /\ ~gone
+  /\ nest' = [nest EXCEPT ![k] = IF @ = "run" THEN "ans" ELSE "oans"]
   /\ UNCHANGED <<net, gone, tab, listed, sst, scl, timer, h, hctx, px, get, sse, cst, ccl, cfail, clisted, cc, del, delmode, cn, sn, late, lateN, ccanc>>
+
+\* jsonrpc2 Notify on the client: refused while shutting down unless some call (other than k, just retired) is in flight
+CanNotify(k) == cfail = "no" /\ (cst = "open" \/ (cst = "closing" /\ \E j \in Calls : (j # k /\ cc[j] = "pending") \/ nest[j] \in {"run", "ans", "orun", "oans"}))
 
 \* the caller of k gives up: the call is retired at once, its POST is aborted, notifications/cancelled is
 \* POSTed and (pre-empting, also while the server connection is closing) cancels the handler's context
@@ -171,10 +176,11 @@ CCancel(k) ==
   /\ Cancels /\ cc[k] = "pending" /\ ~gone
   /\ cc' = [cc EXCEPT ![k] = "err"] /\ ccanc' = [ccanc EXCEPT ![k] = TRUE]
   /\ px' = [px EXCEPT ![k] = IF @ \in {"held", "flight", "open"} THEN "closed" ELSE @]
-  /\ IF h[k] = "running" /\ net = "up" /\ cst = "open" /\ cfail = "no" /\ ~Stateless /\ tab = "live" /\ sst[SOf(k)] \in {"open", "closing"}
+  /\ IF h[k] = "running" /\ net = "up" /\ CanNotify(k) /\ ~Stateless /\ tab = "live" /\ sst[SOf(k)] \in {"open", "closing"}
        THEN hctx' = [hctx EXCEPT ![k] = "cancelled"]
        ELSE UNCHANGED hctx
-  /\ UNCHANGED <<net, gone, tab, listed, sst, scl, timer, h, nest, get, sse, cst, ccl, cfail, clisted, del, delmode, cn, sn, late, lateN>>
+  /\ cfail' = IF net = "up" /\ CanNotify(k) /\ ~Stateless /\ tab = "removed" THEN Fail("missing") ELSE cfail
+  /\ UNCHANGED <<net, gone, tab, listed, sst, scl, timer, h, nest, get, sse, cst, ccl, clisted, del, delmode, cn, sn, late, lateN>>
 
 CClose(c) ==
   /\ ccl[c] = "idle" /\ ~gone
@@ -218,15 +224,19 @@ NetDown(van) ==
   /\ sse' = IF sse = "req" THEN "backoff" ELSE sse
   /\ UNCHANGED <<tab, listed, sst, scl, timer, h, hctx, nest, cst, ccl, cfail, clisted, cc, delmode, cn, sn, late, lateN, ccanc>>
 
-\* a few virtual minutes pass: the DELETE of Close times out (closeDeleteTimeout), the back-off of the standalone
-\* stream expires (with the network down all retries are used up and the connection fails)
-Tick ==
-  /\ del \in {"held", "hung", "srv"} \/ (sse = "backoff" /\ ~gone)
+\* Virtual time passes: the DELETE of Close times out (closeDeleteTimeout), the back-off of the standalone stream
+\* expires (with the network down all retries are used up and the connection fails)
+TimeEffects ==
   /\ del' = IF del \in {"held", "hung", "srv"} THEN "err" ELSE del
   /\ IF sse = "backoff" /\ ~gone
        THEN IF net = "down" THEN sse' = "failed" /\ cfail' = Fail("other") /\ UNCHANGED get
             ELSE sse' = "req" /\ get' = "flight" /\ UNCHANGED cfail
        ELSE UNCHANGED <<sse, cfail, get>>
+
+\* a few virtual minutes pass
+Tick ==
+  /\ del \in {"held", "hung", "srv"} \/ (sse = "backoff" /\ ~gone)
+  /\ TimeEffects
   /\ UNCHANGED <<net, gone, tab, listed, sst, scl, timer, h, hctx, px, nest, cst, ccl, clisted, cc, delmode, cn, sn, late, lateN, ccanc>>
 
 \* the session has been idle for SessionTimeout (no POST in flight): the timer's callback calls Close
@@ -234,7 +244,8 @@ Idle ==
   /\ timer = "armed" /\ OpenPosts = {} /\ scl["timer"] = "idle"
   /\ \A k \in Calls : px[k] \notin {"flight"}
   /\ scl' = [scl EXCEPT !["timer"] = "called"]
-  /\ UNCHANGED <<net, gone, tab, listed, sst, timer, h, hctx, px, nest, get, sse, cst, ccl, cfail, clisted, cc, del, delmode, cn, sn, late, lateN, ccanc>>
+  /\ TimeEffects
+  /\ UNCHANGED <<net, gone, tab, listed, sst, timer, h, hctx, px, nest, cst, ccl, clisted, cc, delmode, cn, sn, late, lateN, ccanc>>
 
 \* a notification from the client (one POST, answered 202 / 404): dispatched only by an open connection
 CNotif ==
@@ -287,7 +298,7 @@ SrvAccept(k) ==
 HandlerCtxReturn(k) ==
   /\ h[k] = "running" /\ hctx[k] = "cancelled"
   /\ h' = [h EXCEPT ![k] = "returned"]
-  /\ nest' = [nest EXCEPT ![k] = IF @ \in NestPending THEN "fail" ELSE @]
+  /\ nest' = [nest EXCEPT ![k] = IF @ = "run" THEN "orun" ELSE IF @ = "ans" THEN "oans" ELSE IF @ \in NestPending THEN "fail" ELSE @]
   /\ UNCHANGED <<net, gone, tab, listed, sst, scl, timer, hctx, px, get, sse, cst, ccl, cfail, clisted, cc, del, delmode, cn, sn, late, lateN, ccanc>>
 
 \* processResult writes the answer on the call's stream: it reaches the caller if the exchange is still attached
@@ -348,13 +359,13 @@ SrvOnClose(c) ==
 
 \* the hanging GET returns when the session's connection is closed
 GetEnd ==
-  /\ get = "open" /\ sst["S"] \in {"trclosed", "done"}
+  /\ ~Stateless /\ get = "open" /\ sst["S"] \in {"trclosed", "done"}
   /\ get' = "closed"
   /\ UNCHANGED <<net, gone, tab, listed, sst, scl, timer, h, hctx, px, nest, sse, cst, ccl, cfail, clisted, cc, del, delmode, cn, sn, late, lateN, ccanc>>
 
 \* the reconnect GET of the standalone stream reaches the handler
 GetArrive ==
-  /\ get = "flight"
+  /\ ~Stateless /\ get = "flight"
   /\ IF net = "down" THEN get' = "closed" /\ sse' = (IF sse = "req" THEN "backoff" ELSE sse) /\ UNCHANGED cfail
      ELSE IF tab = "removed" THEN get' = "closed" /\ sse' = (IF sse = "req" THEN "failed" ELSE sse) /\ cfail' = Fail("missing")
      ELSE get' = "open" /\ sse' = (IF sse = "req" THEN "conn" ELSE sse) /\ UNCHANGED cfail
@@ -362,7 +373,7 @@ GetArrive ==
 
 \* the DELETE reaches the handler: serveStatefulDELETE calls session.Close() (404 if the entry is gone)
 DelArrive ==
-  /\ del = "flight"
+  /\ ~Stateless /\ del = "flight"
   /\ IF net = "down" \/ delmode = "fail" THEN del' = "err" /\ UNCHANGED scl
      ELSE IF delmode = "hang" THEN del' = "hung" /\ UNCHANGED scl
      ELSE IF tab = "removed" THEN del' = "ok" /\ UNCHANGED scl
@@ -389,16 +400,17 @@ CliAccept(k) ==
 
 \* the client POSTs the answer of the nested call
 CliAnswerPost(k) ==
-  /\ nest[k] = "ans"
-  /\ IF gone \/ net = "down" \/ cfail # "no" THEN nest' = [nest EXCEPT ![k] = "stuck"] /\ UNCHANGED cfail
-     ELSE IF tab = "removed" THEN nest' = [nest EXCEPT ![k] = "stuck"] /\ cfail' = Fail("missing")
-     ELSE nest' = [nest EXCEPT ![k] = IF sst["S"] \in {"open", "closing"} THEN "done" ELSE "stuck"] /\ UNCHANGED cfail
+  /\ nest[k] \in {"ans", "oans"}
+  /\ LET lost == IF nest[k] = "ans" THEN "stuck" ELSE "fail" IN
+     IF gone \/ net = "down" \/ cfail # "no" THEN nest' = [nest EXCEPT ![k] = lost] /\ UNCHANGED cfail
+     ELSE IF tab = "removed" THEN nest' = [nest EXCEPT ![k] = lost] /\ cfail' = Fail("missing")
+     ELSE nest' = [nest EXCEPT ![k] = IF nest[k] = "oans" THEN "fail" ELSE IF sst["S"] \in {"open", "closing"} THEN "done" ELSE "stuck"] /\ UNCHANGED cfail
   /\ UNCHANGED <<net, gone, tab, listed, sst, scl, timer, h, hctx, px, get, sse, cst, ccl, clisted, cc, del, delmode, cn, sn, late, lateN, ccanc>>
 
 \* a vanished client answers nothing
 CliVanished(k) ==
-  /\ gone /\ nest[k] \in {"run", "ans"}
-  /\ nest' = [nest EXCEPT ![k] = "stuck"]
+  /\ gone /\ nest[k] \in {"run", "ans", "orun", "oans"}
+  /\ nest' = [nest EXCEPT ![k] = IF @ \in {"run", "ans"} THEN "stuck" ELSE "fail"]
   /\ UNCHANGED <<net, gone, tab, listed, sst, scl, timer, h, hctx, px, get, sse, cst, ccl, cfail, clisted, cc, del, delmode, cn, sn, late, lateN, ccanc>>
 
 CliSetClosing(c) ==
@@ -412,7 +424,7 @@ CliFailNotice ==
   /\ cfail # "no" /\ cst \in {"open", "closing"} /\ ~gone
   /\ cst' = "broken"
   /\ cc' = [k \in Calls |-> IF cc[k] = "pending" THEN "err" ELSE cc[k]]
-  /\ nest' = [k \in Calls |-> IF nest[k] \in {"run", "ans"} THEN "stuck" ELSE nest[k]]
+  /\ nest' = [k \in Calls |-> IF nest[k] \in {"run", "ans"} THEN "stuck" ELSE IF nest[k] \in {"orun", "oans"} THEN "fail" ELSE nest[k]]
   /\ UNCHANGED <<net, gone, tab, listed, sst, scl, timer, h, hctx, px, get, sse, ccl, cfail, clisted, del, delmode, cn, sn, late, lateN, ccanc>>
 
 \* idle and shutting down: streamableClientConn.Close, which first sends the DELETE (unless the session is
@@ -420,7 +432,7 @@ CliFailNotice ==
 CliTransportClose ==
   /\ cst \in {"closing", "broken"} /\ CliIdle /\ ~gone
   /\ cst' = "deleting"
-  /\ del' = IF Stateless \/ cfail = "missing" THEN "skip" ELSE IF delmode = "hold" THEN "held" ELSE "flight"
+  /\ del' = IF Stateless \/ cfail = "missing" THEN "skip" ELSE IF delmode = "hold" /\ net = "up" THEN "held" ELSE "flight"
   /\ UNCHANGED <<net, gone, tab, listed, sst, scl, timer, h, hctx, px, nest, get, sse, ccl, cfail, clisted, cc, delmode, cn, sn, late, lateN, ccanc>>
 
 \* ... then cancels the connection context and closes done: hanging requests are aborted, the SSE goroutine is told to stop
@@ -465,7 +477,7 @@ SdkNext ==
                        \/ CliStreamEnd(k) \/ CliAccept(k) \/ CliAnswerPost(k) \/ CliVanished(k)
   \/ \E c \in Closers : SrvSetClosing(c) \/ SrvCloseWoken(c) \/ SrvOnClose(c)
   \/ \E s \in Sess : SrvTransportClose(s) \/ SrvDone(s)
-  \/ (~Stateless /\ (GetEnd \/ GetArrive \/ DelArrive))
+  \/ GetEnd \/ GetArrive \/ DelArrive
   \/ \E c \in CCl : CliSetClosing(c) \/ CliCloseReturn(c)
   \/ CliFailNotice \/ CliTransportClose \/ CliFinish \/ SseExit \/ SseBodyEnd \/ CliDone
 
@@ -492,14 +504,14 @@ LiveSpec == Spec /\ Fairness
 \* stops new requests from being dispatched
 NothingDispatchedAfterClose ==
   /\ \A k \in Calls : late[k] => h[k] \notin {"running", "returned", "done"}
-  /\ \A k \in Calls : lateN[k] => nest[k] # "run"
+  /\ \A k \in Calls : lateN[k] => nest[k] \notin {"run", "orun"}
   /\ cn = "disp" => TRUE
 
 \* lets handlers that are already running run to completion, and closes the transport only after they have returned
 RunningHandlersFinish ==
   /\ \A k \in Calls : hctx[k] = "cancelled" => ccanc[k]
   /\ \A k \in Calls : sst[SOf(k)] \in {"trclosed", "done"} => h[k] \notin {"running", "returned"}
-  /\ cst \in {"trclosed", "done"} => \A k \in Calls : nest[k] # "run"
+  /\ cst \in {"trclosed", "done"} => \A k \in Calls : nest[k] \notin {"run", "orun"}
 
 \* the session is removed from its Server (and from the handler's table) / from its Client by the time Close returns
 SessionRemoved ==
